@@ -518,3 +518,16 @@ V('MIRROR_getslice_hand_bounds', ['C12'], 'bitstore.py', "        s = offset_sli
 V('MIRROR_index_off_by_one', ['C12'], 'bitstore.py', "        return bool(self._bitarray.__getitem__(-index - 1))", "        return bool(self._bitarray.__getitem__(-index))", ['MIRROR'])
 S('MIRROR_rename_new_slice', ['C12'], 'bitstore.py', fn=rename_local('new_slice', 'mirrored_key'))
 S('MIRROR_getslice_whole_mirrored', ['C12'], 'bitstore.py', "        return BitStore(self._bitarray[s.start:s.stop])", "        return BitStore(self._bitarray[s])")
+
+# ---- XDT
+V('XDT_extend_ignores_scale', ['C14', 'C15'], 'array_.py', "self._dtype.bitlength != iterable._dtype.bitlength \\\n                    or self._dtype.scale != iterable._dtype.scale:",
+  "self._dtype.bitlength != iterable._dtype.bitlength:", ['XDT'])
+V('XDT_equals_ignores_scale', ['C14', 'C15'], 'array_.py', "            if self._dtype.scale != other._dtype.scale:\n                return False\n", "", ['XDT'])
+V('XDT_array_route_ignores_scale', ['C14', 'C15'], 'array_.py', "            if self._dtype.scale is None:\n                self.data += iterable.tobytes()\n            else:\n                # With a scale the stored items are not the raw values, so each one has to be encoded.\n                self.extend(iterable.tolist())",
+  "            self.data += iterable.tobytes()", ['XDT'])
+V('XDT_setitem_splice_by_dtype_eq', ['C14', 'C15'], 'array_.py', "                new_data = BitArray()\n                for x in value:\n                    new_data += self._create_element(x)\n                self.data[start * self._dtype.bitlength",
+  "                if isinstance(value, Array) and value._dtype == self._dtype:\n                    new_data = value.data[:len(value) * self._dtype.bitlength]\n                else:\n                    new_data = BitArray()\n                    for x in value:\n                        new_data += self._create_element(x)\n                self.data[start * self._dtype.bitlength", ['XDT'])
+S('XDT_setitem_splice_full_test', ['C14', 'C15'], 'array_.py', "                new_data = BitArray()\n                for x in value:\n                    new_data += self._create_element(x)\n                self.data[start * self._dtype.bitlength",
+  "                if isinstance(value, Array) and value._dtype.name == self._dtype.name and value._dtype.bitlength == self._dtype.bitlength and value._dtype.scale == self._dtype.scale:\n                    new_data = value.data[:len(value) * self._dtype.bitlength]\n                else:\n                    new_data = BitArray()\n                    for x in value:\n                        new_data += self._create_element(x)\n                self.data[start * self._dtype.bitlength")
+S('XDT_equals_reordered', ['C14', 'C15'], 'array_.py', "            if self._dtype.scale != other._dtype.scale:\n                return False\n            if self.data != other.data:\n                return False\n            return True",
+  "            return other._dtype.scale == self._dtype.scale and self.data == other.data")
